@@ -211,8 +211,10 @@ class TdmsReader(object):
                 num_values_to_trim = segment_end_index - end_index
 
                 # Account for segments where the final chunk is truncated
-                final_chunk_size = (segment_end_index - segment_start_index) % chunk_size
-                final_chunk_size = chunk_size if final_chunk_size == 0 else final_chunk_size
+                if segment.final_chunk_lengths_override is None:
+                    final_chunk_size = chunk_size
+                else:
+                    final_chunk_size = segment.final_chunk_lengths_override.get(channel_path, 0)
                 if num_values_to_trim >= final_chunk_size:
                     num_chunks -= 1
                     num_values_to_trim -= final_chunk_size
